@@ -33,6 +33,7 @@ func findClosures(fn *ssa.Function, pred func(*ssa.Function) bool) []*ssa.Functi
 func callsAny(fn *ssa.Function, cs ...an.Callee) bool { return len(an.Calls(fn, cs...)) > 0 }
 
 func c03(c *an.Check) {
+	expectedPeerForwarding(c)
 	p := c.P
 	pk := p.Func("crypto/tls", "", "PubKeyFromCertChain")
 	c.Gate(an.GateSpec{Construct: "p2ptls.PubKeyFromCertChain success-return", Fn: pk, Sink: successReturn, Reqs: []an.Req{
